@@ -28,6 +28,8 @@ pub open spec fn tm_post(rtext: &TextRef, qtext: &TextRef, ret: (Vec<WordMatch>,
     matches_for_text(ret.0@, rtext) && matches_for_text(ret.1@, qtext) && matches_ok(ret.0@) && matches_ok(ret.1@)
 }
 //@include edit_forms.rs
+// C09 / C12: a query without words matches nothing
+pub open spec fn tm_empty(qtext: &TextRef, ret: (Vec<WordMatch>, Vec<WordMatch>)) -> bool { qtext.words@.len() == 0 ==> ret.0@.len() == 0 && ret.1@.len() == 0 }
 // ---- recall side of text_match (C03 C04 C13): TM-some.  The first query word is an exact prefix of (while still being typed), or
 // the same characters as, word j of the record text ==> the record gets at least one match
 pub open spec fn tchars(t: &TextRef, k: int) -> Seq<char> { t.chars@.subrange(t.words@[k].slice.0 as int, t.words@[k].slice.1 as int) }
